@@ -6,7 +6,7 @@ Decided - necessary conditions, each breakable while every test still passes:
  K  composition (E4, small N, reference path): the value that znx_small_single_product and the pipeline
     svp_prepare -> svp_apply_dft -> vec_znx_idft_tmp_a feed to the final rounding is, read over the reals with the
     module's stored twiddles, the bilinear form  sum_{i+j=k} a_i*b_j - sum_{i+j=k+N} a_i*b_j  (the product in
-    Z[X]/(X^N+1)) with every coefficient within 64*N*2^-53 of 0 / +-1, the scaling by 1/m included, and the result is
+    Z[X]/(X^N+1)) with every coefficient within (40*log2(N)+4)*2^-53 of 0 / +-1, the scaling by 1/m included, and the result is
     rint(.) of it converted to int64: so convert -> FFT -> pointwise product -> iFFT -> divide by m -> round is wired
     correctly (transform order, conjugation, scaling, product layout).
  W  module wiring (E1/E3): every transform / conversion / product called from an FFT64 module-level function takes its
@@ -52,7 +52,12 @@ def strip_round(v):
 def check_bilinear(st, N, aname, bname, a_off, b_off, res_off, label):
     """st: final store of the result buffer; returns (error, number of coefficients)"""
     PF = PolyForms(2)
-    tol = 64 * N * mpf(2) ** -53
+    # a coefficient of the exact-arithmetic bilinear form off by delta changes the product of two monomials a_i X^i, b_j X^j
+    # by delta*|a_i b_j|, where the property allows E = 16*log2(N)*2^-53*|a_i b_j|; rounding errors (bounded a priori by the
+    # three transforms' bounds of C06/E, below 8*log2(N)*2^-53 each, plus the pointwise product) cannot hide more than
+    # 24*log2(N)*2^-53 + 4*2^-53 of it: beyond 40*log2(N)*2^-53 + 4*2^-53 the property fails on such an input
+    from math import log2 as _l2
+    tol = (40 * max(1.0, _l2(N)) + 4) * mpf(2) ** -53
     n = 0
     for k in range(N):
         e = st.get(res_off + 8 * k)
